@@ -379,6 +379,16 @@ def property_value(ctx, cls_qual, name):
     return rets[0].value
 
 
+def elem_of_comp(t):
+    """`for v in [E(k) for k in xs if c]`: the loop variable is ('elem', <comp>, lid); -> (E, conditions, source, comprehension loop id) so that a rule can read
+    what the variable stands for and under which filter (the list is complete before the loop runs: a different statement than filtering inside the loop, same
+    elements).  None for anything else"""
+    if t[0] == 'elem' and t[1][0] == 'comp' and t[1][1] in ('list', 'gen') and len(t[1][3]) == 1:
+        clid, src, conds = t[1][3][0]
+        return t[1][2], tuple(conds), src, clid
+    return None
+
+
 def cond_paths(c):
     """short-circuit evaluation paths of a condition term: [(guards, truth)] with guards = ((canonical atom, polarity), ...) in evaluation order -
     the same decomposition the evaluator applies to the test of an if statement"""
@@ -404,16 +414,35 @@ def cond_paths(c):
     return [(((atom, not neg),), True), (((atom, neg),), False)]
 
 
-def alternatives(t, limit=64):
+def _outer_subterms(t):
+    """sub-terms of t outside the element / conditions of comprehensions and the bodies of lambdas (what is evaluated once, not per element)"""
+    stack = [t]
+    while stack:
+        x = stack.pop()
+        if not isinstance(x, tuple) or not x:
+            continue
+        if isinstance(x[0], str) and x[0] in T._TAGS:
+            yield x
+            if x[0] == 'const' or x[0] == 'lambda':
+                continue
+            if x[0] == 'comp':
+                stack.extend(reversed([g[1] for g in x[3]]))
+                continue
+            stack.extend(reversed(x[1:]))
+        else:
+            stack.extend(reversed(x))
+
+
+def alternatives(t, limit=64, into_comps=True):
     """A term with its conditional expressions resolved: [(variant without ifexp, guards)] - so that `x.append(a if c else b)` reads like
-    `if c: x.append(a) else: x.append(b)`"""
+    `if c: x.append(a) else: x.append(b)`.  into_comps=False leaves the per-element conditionals of comprehensions alone"""
     out = []
 
     def rec(term, guards):
         if len(out) >= limit:
             return
         first = None
-        for x in T.subterms(term):
+        for x in (T.subterms(term) if into_comps else _outer_subterms(term)):
             if x[0] == 'ifexp':
                 first = x
                 break
